@@ -3,7 +3,7 @@
    semantics (Lang/Sem.v), which the implementation is compared with on every run. *)
 From Coq Require Import ZArith String List Bool QArith Sorted.
 From Bardolph Require Import Gen.Codes Lang.Value Lang.Instr Lang.Loader Lang.World Lang.Regs Lang.Machine Lang.Syntax Lang.Sem Lang.CodeGen
-  Lang.Loops Lang.ExprCompile Lang.Simulation Lang.CallFrames Lang.RangeLoop Lang.Simulation3.
+  Lang.Loops Lang.ExprCompile Lang.Simulation Lang.CallFrames Lang.RangeLoop Lang.CountWith Lang.Simulation3.
 Import ListNotations.
 Open Scope Z_scope.
 
@@ -122,3 +122,26 @@ Theorem C04_range_loop_compiled_runs_as_its_source_says :
   outcome after im ss s sig ss' (c_stmt rt mt false after (SRepeat (LRange v a b) body)).
 Proof. exact range_loop_simulation. Qed.
 Print Assumptions C04_range_loop_compiled_runs_as_its_source_says.
+
+(* the same for `repeat n with v from a to b` (the preparation code computes the step (b - a) / (n - 1), 0 for a single pass) ... *)
+Theorem C04_interpolating_loop_compiled_runs_as_its_source_says :
+  forall rt mt (inr : bool) n v a b body, plain_rval mt n = true -> plain_rval mt a = true -> plain_rval mt b = true -> SimpleB rt mt true inr body ->
+  forall after im ss s sig ss' fuel, routines_loaded rt mt im -> in_ret_ok inr (m_frames s) ->
+  depth_ok (m_frames s) (zlength (m_stack s)) -> sim ss s ->
+  code_at im (m_pc s) (c_stmt rt mt false after (SRepeat (LCountWith n (WRange v a b)) body)) ->
+  Sem.exec rt mt fuel false ss (SRepeat (LCountWith n (WRange v a b)) body) = ROk sig ss' ->
+  outcome after im ss s sig ss' (c_stmt rt mt false after (SRepeat (LCountWith n (WRange v a b)) body)).
+Proof. exact interpolating_loop_simulation. Qed.
+Print Assumptions C04_interpolating_loop_compiled_runs_as_its_source_says.
+
+(* ... and for `repeat n with v cycle [start]` (the step is a full turn in the current units / n; with n = 0 no step is computed
+   and the body never runs) *)
+Theorem C04_cycle_loop_compiled_runs_as_its_source_says :
+  forall rt mt (inr : bool) n v start body, plain_rval mt n = true -> plain_opt mt start = true -> SimpleB rt mt true inr body ->
+  forall after im ss s sig ss' fuel, routines_loaded rt mt im -> in_ret_ok inr (m_frames s) ->
+  depth_ok (m_frames s) (zlength (m_stack s)) -> sim ss s ->
+  code_at im (m_pc s) (c_stmt rt mt false after (SRepeat (LCountWith n (WCycle v start)) body)) ->
+  Sem.exec rt mt fuel false ss (SRepeat (LCountWith n (WCycle v start)) body) = ROk sig ss' ->
+  outcome after im ss s sig ss' (c_stmt rt mt false after (SRepeat (LCountWith n (WCycle v start)) body)).
+Proof. exact cycle_loop_simulation. Qed.
+Print Assumptions C04_cycle_loop_compiled_runs_as_its_source_says.
